@@ -1414,3 +1414,140 @@ Proof.
   destruct (negb (blen b <=? cap (lru s))); [reflexivity|].
   rewrite reopen_lru_remove. reflexivity.
 Qed.
+
+(* ---- lookups and removals are exact in the id (ids of every length) ---- *)
+Lemma amem_aremove_neq {V} k k' (l : list (key * V)) : k' <> k -> amem k' (aremove k l) = amem k' l.
+Proof. intros N. unfold amem. rewrite alookup_aremove_neq by exact N. reflexivity. Qed.
+
+Lemma remove_other s k s' r :
+  remove s k = (s', r) ->
+  forall k', k' <> k ->
+  amem k' (index s') = amem k' (index s) /\ amem k' (files s') = amem k' (files s).
+Proof.
+  unfold remove, lru_remove. intros H k' N.
+  destruct (alookup k (index s)) as [sz|] eqn:E; [|inversion H; subst; auto].
+  simpl in H. destruct (alookup k (files s)) as [x|] eqn:F; inversion H; subst; clear H; simpl;
+    rewrite ?amem_aremove_neq by exact N; auto.
+Qed.
+
+Theorem remove_is_exact digest s0 ops i :
+  tinv digest s0 ->
+  let s := trun digest s0 ops in
+  forall j, j <> i ->
+  tc_contains (fst (tc_remove s i)) j = tc_contains s j /\
+  content_of (fst (tc_remove s i)) j = content_of s j.
+Proof.
+  intros T s j Hji. unfold tc_remove.
+  destruct (valid_id i) eqn:Hv; simpl; [|auto].
+  destruct (remove (lru s) (key_path i)) as [l1 r] eqn:RE. simpl.
+  assert (Hk : key_path j <> key_path i) by (intros Hk; apply Hji; apply key_path_inj; auto).
+  destruct (remove_other _ _ _ _ RE (key_path j) Hk) as (Hi & Hf).
+  unfold tc_contains, content_of, mk. cbn [lru cont]. rewrite Hi, Hf, alookup_restrict, Hf. split; [reflexivity|].
+  destruct (amem (key_path j) (files (lru s))); reflexivity.
+Qed.
+
+(* an id that is not the digest of any content (too long, too short, ...) is never reported
+   present and never served, whatever is stored under ids that resemble it *)
+Theorem only_digests_are_served digest s0 ops i :
+  tinv digest s0 ->
+  (forall c, digest c <> i) ->
+  let s := trun digest s0 ops in
+  tc_contains s i = false /\
+  (forall s' r t ret, tc_get digest s i = (s', r, t, ret) -> r <> TOk /\ ret = []).
+Proof.
+  intros T ND s. destruct (content_matches digest s0 ops T i) as (CM & GM). fold s in CM, GM. split.
+  - destruct (tc_contains s i) eqn:E; [|reflexivity].
+    destruct (CM eq_refl) as (c & _ & Hd). exfalso. exact (ND c Hd).
+  - intros s' r t ret H. assert (R : r <> TOk).
+    { intros ->. destruct (GM _ _ _ H) as (c & _ & Hd & _). exact (ND c Hd). }
+    split; [exact R|]. unfold tc_get in H.
+    destruct (negb (valid_id i)); [inversion H; reflexivity|].
+    destruct (get (lru s) (key_path i)) as [[l1 r1] t1]. destruct r1; inversion H; subst; try reflexivity.
+    exfalso. apply R. reflexivity.
+Qed.
+
+(* ---- the build server in front of the cache ---- *)
+Lemma tinv_submit_now digest v jobs j b :
+  tinv digest v -> tinv digest (fst (submit_now digest v jobs j b)).
+Proof.
+  intros T. unfold submit_now. destruct (hlookup j jobs) as [i|]; [|exact T].
+  destruct (tc_contains v i); [exact T|].
+  pose proof (tinv_insert_with digest v i b false T) as H.
+  destruct (tc_insert_with digest v i b false) as [[v' r] t]. exact H.
+Qed.
+
+Lemma tinv_sstep digest s o : tinv digest (sv s) -> tinv digest (sv (fst (fst (sstep digest s o)))).
+Proof.
+  intros T. destruct o as [i|j b|j b| |j]; simpl.
+  - destruct (negb (valid_id i)); [exact T|]. destruct (supl s); exact T.
+  - destruct (supl s); [exact T|].
+    pose proof (tinv_submit_now digest (sv s) (sjobs s) j b T) as H.
+    destruct (submit_now digest (sv s) (sjobs s) j b) as [v' r]. exact H.
+  - destruct (supl s); [exact T|]. destruct (hlookup j (sjobs s)); [|exact T].
+    destruct (tc_contains (sv s) i); exact T.
+  - destruct (supl s) as [[j b]|]; [|exact T].
+    pose proof (tinv_submit_now digest (sv s) (sjobs s) j b T) as H.
+    destruct (submit_now digest (sv s) (sjobs s) j b) as [v' r]. exact H.
+  - destruct (supl s); [exact T|]. destruct (hlookup j (sjobs s)) as [i|]; [|exact T].
+    destruct (mem_id i (sdirs s)); [exact T|].
+    pose proof (tinv_get digest (sv s) i T) as H.
+    destruct (tc_get digest (sv s) i) as [[[v1 r] t] ret]. simpl in H.
+    destruct r; simpl; try exact H. apply tinv_remove. exact H.
+Qed.
+
+Lemma tinv_srun digest ops : forall s, tinv digest (sv s) -> tinv digest (sv (srun digest s ops)).
+Proof.
+  unfold srun. induction ops as [|o r IH]; intros s T; simpl; [exact T|].
+  apply IH. apply tinv_sstep. exact T.
+Qed.
+
+Lemma answer_ready digest v i :
+  tinv digest v -> answer v i = SReady -> exists c, content_of v i = Some c /\ digest c = i.
+Proof.
+  intros T H. unfold answer in H. destruct (tc_contains v i) eqn:E; [|discriminate].
+  destruct (content_matches_state digest v T i) as (CM & _). exact (CM E).
+Qed.
+
+Theorem server_ready_means_present digest s0 ops o :
+  tinv digest (sv s0) ->
+  let s := srun digest s0 ops in
+  let s' := fst (fst (sstep digest s o)) in
+  (snd (fst (sstep digest s o)) = SReady ->
+     exists i c, o = SAssign i /\ content_of (sv s') i = Some c /\ digest c = i) /\
+  (forall n w, nth_error (swait s) n = Some w ->
+     nth_error (snd (sstep digest s o)) n = Some SReady ->
+     exists c, content_of (sv s') (snd w) = Some c /\ digest c = snd w).
+Proof.
+  intros T s s'. pose proof (tinv_srun digest ops s0 T) as Ts. fold s in Ts.
+  pose proof (tinv_sstep digest s o Ts) as Ts'. fold s' in Ts'.
+  subst s'. destruct o as [i|j b|j b| |j]; simpl in *.
+  - destruct (negb (valid_id i)); simpl in *.
+    + split; [discriminate|]. intros n w _ H. destruct n; discriminate.
+    + destruct (supl s); simpl in *.
+      * split; [discriminate|]. intros n w _ H. destruct n; discriminate.
+      * split.
+        -- intros H. destruct (answer_ready digest (sv s) i Ts H) as (c & Hc & Hd). exists i, c. auto.
+        -- intros n w _ H. destruct n; discriminate.
+  - destruct (supl s); simpl in *.
+    + split; [discriminate|]. intros n w _ H. destruct n; discriminate.
+    + destruct (submit_now digest (sv s) (sjobs s) j b) as [v' r] eqn:SN. simpl in *. split.
+      * intros ->. unfold submit_now in SN. destruct (hlookup j (sjobs s)); [|inversion SN].
+        destruct (tc_contains (sv s) i); [inversion SN|].
+        destruct (tc_insert_with digest (sv s) i b false) as [[v2 r2] t2]. destruct r2; inversion SN.
+      * intros n w _ H. destruct n; discriminate.
+  - destruct (supl s); simpl in *; [split; [discriminate|]; intros n w _ H; destruct n; discriminate|].
+    destruct (hlookup j (sjobs s)); simpl in *; [|split; [discriminate|]; intros n w _ H; destruct n; discriminate].
+    destruct (tc_contains (sv s) i); simpl in *; split; try discriminate; intros n w _ H; destruct n; discriminate.
+  - destruct (supl s) as [[j b]|]; simpl in *; [|split; [discriminate|]; intros n w _ H; destruct n; discriminate].
+    destruct (submit_now digest (sv s) (sjobs s) j b) as [v' r] eqn:SN. simpl in *. split.
+    + intros ->. unfold submit_now in SN. destruct (hlookup j (sjobs s)); [|inversion SN].
+      destruct (tc_contains (sv s) i); [inversion SN|].
+      destruct (tc_insert_with digest (sv s) i b false) as [[v2 r2] t2]. destruct r2; inversion SN.
+    + intros n w Hw H. rewrite nth_error_map, Hw in H. simpl in H. inversion H as [H1].
+      apply (answer_ready digest v' (snd w) Ts' H1).
+  - destruct (supl s); simpl in *; [split; [discriminate|]; intros n w _ H; destruct n; discriminate|].
+    destruct (hlookup j (sjobs s)) as [i|]; simpl in *; [|split; [discriminate|]; intros n w _ H; destruct n; discriminate].
+    destruct (mem_id i (sdirs s)); simpl in *; [split; [discriminate|]; intros n w _ H; destruct n; discriminate|].
+    destruct (tc_get digest (sv s) i) as [[[v1 r] t] ret]. destruct r; simpl in *;
+      (split; [discriminate|]; intros n w _ H; destruct n; discriminate).
+Qed.
